@@ -148,10 +148,13 @@ claim('C17',
       'constructors and accessors: for FULLY SYMBOLIC int64, uint64 and decimal64 digits (precision <= 18), every model width option (absent, '
       '8, 16, 32, 64), bool, and strings / ascii / bytes up to 3 symbolic bytes (incl. 0x00, 0xff, quote) z3 proves the value returned by a '
       'PROTO Get and the value placed in the southbound update equal the value set; the JSON leaf built by the real tree code is a string exactly '
-      'for 64-bit integers under RFC 7951.',
+      'for 64-bit integers under RFC 7951 and its text is the decimal text of the value (decimal texts are kept abstract as sign + 64-bit '
+      'magnitude: two texts are equal iff these are equal); uint leaf-lists of two fully symbolic elements of every width (the variable-length '
+      'big.Int encodings are case-split on their byte lengths): elements unchanged in PROTO Get / southbound update, JSON elements are strings '
+      'with the UNSIGNED decimal text exactly for width 64 under RFC 7951.',
       'math/big.Int is a contract model (sign, 64-bit magnitude; SetBytes/Bytes/Neg/Sign/Int64/Uint64/SetInt64/SetUint64/NewInt) valid for '
-      'magnitudes < 2^64; float/double (big.Float gob encoding) and the decimal TEXT of numbers (strconv/fmt) are outside; leaf-lists not yet '
-      'covered. Trusted: go/ssa, executor, z3.',
+      'magnitudes < 2^64; float/double (big.Float gob encoding) and the DIGITS of decimal texts (strconv/fmt; only sign and magnitude are '
+      'modelled) are outside; leaf-lists: uint with 2 elements only (int/bool/decimal/bytes leaf-lists not covered). Trusted: go/ssa, executor, z3.',
       'SSA symbolic execution + SMT (z3) over 64-bit bit-vectors', 'DESIGN.md 6/C17')
 claim('C04',
       'Histories of Sets (same 7-node universe and case-split operations as C03, written values symbolic) are committed AND applied through the '
